@@ -96,6 +96,7 @@ func queryStream() ([]Tok, *ast.Source) {
 	verifrt.SetOpt("merge", verifrt.Param("merge", 0))
 	toks := append(append([]Tok(nil), pre...), SymbolicStream(k, Alphabet(QueryNames, verifrt.Param("invalid", 0) != 0), verifrt.Param("first", -1))...)
 	toks = append(toks, suf...)
+	SymStart = len(pre)
 	return toks, Install(toks)
 }
 
@@ -236,3 +237,8 @@ func QueryLimit() {
 		}
 	}
 }
+
+// QueryStream / QueryAlphabet: the stream builder of the C05 harnesses, for the
+// round-trip harnesses of package hfmt.
+func QueryStream() ([]Tok, *ast.Source) { return queryStream() }
+func QueryAlphabet() []Tok              { return Alphabet(QueryNames, verifrt.Param("invalid", 0) != 0) }
